@@ -15,7 +15,7 @@
    the cycle space, and "in_ring <-> lies on a cycle" (search against a bridge finder). *)
 From Coq Require Import ZArith List Bool Permutation.
 From Model Require Import PyBase Graph Rings.
-From Proofs Require Import RingsProofs RingsMcb RingsRank.
+From Proofs Require Import RingsProofs RingsMcb RingsRank RingsExt RingsDim RingsFund.
 Import ListNotations.
 Open Scope Z_scope.
 
@@ -71,7 +71,15 @@ Theorem C06_accepted_ring_atoms : forall g rs r v, is_cycle_basis g rs = true ->
 Proof. exact accepted_ring_atoms. Qed.
 Print Assumptions C06_accepted_ring_atoms.
 
-(* ---- (S) the reference construction mcb_ref (Horton candidates + greedy elimination) ---- *)
+(* ---- (S) the reference construction mcb_ref (Horton candidates + one family of fundamental cycles, greedy elimination) ---- *)
+
+(* the fundamental cycles obtained by deleting the bonds one at a time: simple cycles of the graph, exactly
+   bonds - atoms + components of them, linearly independent *)
+Theorem C06_fund_cycles_spec : forall g, gwf g ->
+  Forall (is_cycle g) (fund_cycles g) /\ Z.of_nat (length (fund_cycles g)) = cyclomatic g /\
+  ~ dependent (map (ring_vec g) (fund_cycles g)).
+Proof. exact fund_cycles_spec. Qed.
+Print Assumptions C06_fund_cycles_spec.
 
 (* for every well-formed graph: each ring of mcb_ref g is a simple cycle of g, the rings are linearly independent
    (accepted by the elimination of the checker) and there are at most bonds - atoms + components of them *)
@@ -82,13 +90,61 @@ Theorem C06_mcb_ref_sound : forall g, gwf g ->
 Proof. exact mcb_ref_sound. Qed.
 Print Assumptions C06_mcb_ref_sound.
 
-(* mcb_ref_is_basis, PARTIAL: missing is that the Horton candidates span the cycle space, i.e. that the count is always
-   reached (hypothesis N); the check evaluates is_cycle_basis g (mcb_ref g) on every molecule it sends to mcb_ref.
-   Minimality of mcb_ref (greedy on the cycle matroid + Horton completeness) is not proved. *)
-Theorem C06_mcb_ref_is_basis_partial : forall g, gwf g -> Z.of_nat (length (mcb_ref g)) = cyclomatic g ->
-  is_cycle_basis g (mcb_ref g) = true.
-Proof. exact mcb_ref_is_basis_partial. Qed.
-Print Assumptions C06_mcb_ref_is_basis_partial.
+(* mcb_ref_is_basis, unconditional: the reference construction is accepted by the checker on EVERY well-formed graph
+   (the greedy selection reaches the count because its candidates contain the independent fundamental cycles; Steinitz).
+   Minimality of mcb_ref among ALL cycle bases still needs Horton's theorem, which is not proved. *)
+Theorem C06_mcb_ref_is_basis : forall g, gwf g -> is_cycle_basis g (mcb_ref g) = true.
+Proof. exact mcb_ref_is_basis. Qed.
+Print Assumptions C06_mcb_ref_is_basis.
+
+(* every accepted ring list has exactly as many rings as the reference basis *)
+Theorem C06_accepted_same_length : forall g rs, is_cycle_basis g rs = true -> length rs = length (mcb_ref g).
+Proof. exact accepted_same_length. Qed.
+Print Assumptions C06_accepted_same_length.
+
+(* ---- (S) the dimension theorem of the GF(2) cycle space: accepted ring lists SPAN ---- *)
+
+(* bonds - atoms + components is never negative *)
+Theorem C06_cyclomatic_nonneg : forall g, gwf g -> 0 <= cyclomatic g.
+Proof. exact cyclomatic_nonneg. Qed.
+Print Assumptions C06_cyclomatic_nonneg.
+
+(* every simple cycle is an even edge set: each atom meets an even number of its bonds *)
+Theorem C06_cycle_even : forall g r, gwf g -> is_cycle g r -> even g (fun e => ring_has_edge r e).
+Proof. exact cycle_even. Qed.
+Print Assumptions C06_cycle_even.
+
+(* a bond whose ends fall apart when it is deleted (a bridge) lies in no even edge set *)
+Theorem C06_bridge_not_in_even : forall g a b f, gwf g -> In b (gnbrs g a) -> even g f ->
+  ~ reach (del_edge g a b) a b -> f (norm_edge (a, b)) = false.
+Proof. exact bridge_not_in_even. Qed.
+Print Assumptions C06_bridge_not_in_even.
+
+(* the dimension theorem: a family of even edge sets in which no non-empty selection sums to the empty set has at most
+   bonds - atoms + components members (induction on the number of bonds, deleting one bond at a time) *)
+Theorem C06_cycle_space_dimension : forall g fs, gwf g -> Forall (even g) fs -> findep g fs ->
+  Z.of_nat (length fs) <= cyclomatic g.
+Proof. exact dim_bound. Qed.
+Print Assumptions C06_cycle_space_dimension.
+
+Theorem C06_cycle_rank_bound : forall g rs, gwf g -> Forall (is_cycle g) rs -> independent_b (map (ring_vec g) rs) = true ->
+  Z.of_nat (length rs) <= cyclomatic g.
+Proof. exact cycle_rank_bound. Qed.
+Print Assumptions C06_cycle_rank_bound.
+
+(* SPANNING, unconditionally: every simple cycle of the graph is the edge-wise sum of a selection of the rings of an
+   accepted list - so "accepted by the checker" means "is a basis of the cycle space" *)
+Theorem C06_basis_checker_spanning : forall g rs c, is_cycle_basis g rs = true -> is_cycle g c ->
+  exists sel, length sel = length rs /\ forall e, In e (edges g) -> ring_has_edge c e = sel_parity sel rs e.
+Proof. exact basis_spans. Qed.
+Print Assumptions C06_basis_checker_spanning.
+
+Theorem C06_spanning_example :
+  is_cycle_basis ex_graph [[1;2;3;4;5;6]; [3;4;5;6;7;8]] = true /\ is_cycle ex_graph [1;2;3;8;7;6] /\
+  forallb (fun e => Bool.eqb (ring_has_edge [1;2;3;8;7;6] e) (sel_parity [true; true] [[1;2;3;4;5;6]; [3;4;5;6;7;8]] e)) (edges ex_graph) = true /\
+  cyclomatic ex_graph = 2.
+Proof. exact ex_spans. Qed.
+Print Assumptions C06_spanning_example.
 
 (* ---- (S) rank: a Steinitz exchange theorem obtained from the verified elimination, and what it gives for mcb_ref ---- *)
 
@@ -113,10 +169,10 @@ Proof. exact greedy_min_weight. Qed.
 Print Assumptions C06_greedy_min_weight.
 
 (* minimality of mcb_ref, PARTIAL: its total size is minimum among all linearly independent families with as many rings
-   whose members are (up to spelling) Horton candidates.  Missing for "mcb_ref is a MINIMUM cycle basis": Horton's theorem
-   that some minimum cycle basis consists of candidates only (and that the candidates span the cycle space). *)
+   whose members are (up to spelling) candidates (Horton candidates or fundamental cycles).  Missing for "mcb_ref is a
+   MINIMUM cycle basis": Horton's theorem that some minimum cycle basis consists of candidates only. *)
 Theorem C06_mcb_ref_min_among_candidates_partial : forall g T,
-  (forall t, In t T -> exists c, In c (horton_candidates g) /\ same_cycle g t c) ->
+  (forall t, In t T -> exists c, In c (mcb_candidates g) /\ same_cycle g t c) ->
   ~ dependent (map (ring_vec g) T) -> length T = length (mcb_ref g) ->
   total_size (mcb_ref g) <= total_size T.
 Proof. exact mcb_ref_min_among_candidate_cycles. Qed.
@@ -125,7 +181,7 @@ Print Assumptions C06_mcb_ref_min_among_candidates_partial.
 (* non-vacuity: six independent Horton candidates of the dense cage with total size 28; mcb_ref has 21 *)
 Theorem C06_min_weight_example :
   let T := [[7;3;1;4;5]; [3;1;4;6;2]; [1;2;6;7;3]; [1;2;5;7;3]; [7;5;4;6]; [5;2;1;3]] in
-  incl T (horton_candidates cage_7_12) /\ ~ dependent (map (ring_vec cage_7_12) T) /\ length T = length (mcb_ref cage_7_12) /\
+  incl T (mcb_candidates cage_7_12) /\ ~ dependent (map (ring_vec cage_7_12) T) /\ length T = length (mcb_ref cage_7_12) /\
   total_size (mcb_ref cage_7_12) = 21 /\ total_size T = 28.
 Proof. exact ex_min_weight. Qed.
 Print Assumptions C06_min_weight_example.
@@ -211,6 +267,17 @@ Print Assumptions C06_skin_same_cycles.
 Theorem C06_skin_graph_wf : forall g, gwf g -> exists g', skin_graph g = Ok g' /\ gwf g'.
 Proof. exact skin_graph_wf. Qed.
 Print Assumptions C06_skin_graph_wf.
+
+(* pruning preserves bonds - atoms + components: one round (an atom with at most one neighbour leaves) and the whole
+   _skin_graph; so rings_count of the pruned graph is rings_count of the molecule graph *)
+Theorem C06_prune_keeps_cyclomatic : forall g n ms, gwf g -> In (n, ms) g -> (length ms <= 1)%nat ->
+  cyclomatic (prune g n ms) = cyclomatic g.
+Proof. exact prune_keeps_cyclomatic. Qed.
+Print Assumptions C06_prune_keeps_cyclomatic.
+
+Theorem C06_skin_keeps_cyclomatic : forall g g', gwf g -> skin_graph g = Ok g' -> cyclomatic g' = cyclomatic g.
+Proof. exact skin_keeps_cyclomatic. Qed.
+Print Assumptions C06_skin_keeps_cyclomatic.
 
 (* what is left has no terminal atom; the loop never runs out of fuel (the model's only artificial error) *)
 Theorem C06_skin_min_degree : forall g g', skin_graph g = Ok g' -> forall n ms, In (n, ms) g' -> (2 <= length ms)%nat.
